@@ -55,7 +55,7 @@ func WriteBlockTo(enc *StrListEncoder, w io.Writer, blk [][]string) (int64, erro
 
 func ReadBlockFrom(r io.Reader) (int64, [][]string, error) {
 	b := make([]byte, 4)
-	m, err := r.Read(b)
+	m, err := io.ReadFull(r, b)
 	if err != nil {
 		return 0, nil, err
 	}
